@@ -227,6 +227,16 @@ impl Global {
         let global_epoch = self.epoch.load(Ordering::Relaxed);
         atomic::fence(Ordering::SeqCst);
 
+        // The traversal below defers the destruction of every participant it unlinks, and every
+        // 64th deferral tries to advance the epoch again (`Local::incr_advance`). Without this
+        // the calls nest as deep as the number of retired participants / 64, which overflows the
+        // stack when there are hundreds of thousands of them (each release made after the
+        // thread-local handle is gone registers and retires one). The traversal that is already
+        // running does the job.
+        let Some(_scope) = AdvanceScope::enter(guard) else {
+            return global_epoch;
+        };
+
         // `Local`s are stored in a linked list because linked lists are fairly
         // easy to implement in a lock-free manner. However, traversal can be slow due to cache
         // misses and data dependencies. We should experiment with other data structures as well.
@@ -273,6 +283,27 @@ impl Global {
     }
 }
 
+/// Marks the participant behind a guard as being inside `Global::try_advance`.
+struct AdvanceScope<'a>(Option<&'a Local>);
+
+impl<'a> AdvanceScope<'a> {
+    /// Returns `None` if the participant is inside `try_advance` already.
+    fn enter(guard: &'a Guard) -> Option<Self> {
+        match unsafe { guard.local.as_ref() } {
+            Some(local) if local.advancing.replace(true) => None,
+            local => Some(Self(local)),
+        }
+    }
+}
+
+impl Drop for AdvanceScope<'_> {
+    fn drop(&mut self) {
+        if let Some(local) = self.0 {
+            local.advancing.set(false);
+        }
+    }
+}
+
 /// Participant for garbage collection.
 pub(crate) struct Local {
     /// A node in the intrusive linked list of `Local`s.
@@ -303,6 +334,8 @@ pub(crate) struct Local {
 
     must_collect: Cell<bool>,
     collecting: Cell<bool>,
+    /// Whether this participant is inside `Global::try_advance`.
+    advancing: Cell<bool>,
 
     /// The local epoch.
     epoch: CachePadded<AtomicEpoch>,
@@ -328,6 +361,7 @@ impl Local {
                 manual_count: Cell::new(0),
                 must_collect: Cell::new(false),
                 collecting: Cell::new(false),
+                advancing: Cell::new(false),
                 epoch: CachePadded::new(AtomicEpoch::new(Epoch::starting())),
             });
             collector.global.locals.insert(local, &unprotected());
